@@ -80,6 +80,8 @@ Section WithEnv.
   Definition insert_data (s : section) (pos : N) (raw : bytes) : res section :=
     let size := lenN raw in
     if sh_type s =? SHT_NOBITS then Ok s
+    else if (match s_data s with None => true | Some _ => false end) && negb (sh_size s =? 0)
+    then Ok s            (* the existing data is not available: refused (C07 fix) *)
     else if sh_size s <? pos then Ok s
     else if XWORD_MAX - sh_size s <? size then Ok s
     else
